@@ -154,7 +154,13 @@ func staticCalleeName(cc *ssa.CallCommon) string {
 	if f := cc.StaticCallee(); f != nil {
 		if f.Object() != nil {
 			if fo, ok := f.Object().(*types.Func); ok {
-				return strings.ReplaceAll(strings.ReplaceAll(fo.FullName(), modPath+"/", ""), modPath+".", "zlint.")
+				n := strings.ReplaceAll(strings.ReplaceAll(fo.FullName(), modPath+"/", ""), modPath+".", "zlint.")
+				if old := aliasedBase(f); old != "" {
+					if i := strings.LastIndex(n, "."); i >= 0 {
+						n = n[:i+1] + old
+					}
+				}
+				return n
 			}
 		}
 		return f.String()
